@@ -605,76 +605,110 @@ func ruleOpSubset(w *World, r *Report, pkg *ssa.Package) {
 // than their last index.
 func ruleParent(w *World, r *Report, pkg *ssa.Package) {
 	const rule = "R-PARENT"
-	fn := w.Func(pkg, "setPatchDiffElementContext")
-	r.Fn(fnName(fn))
-	patch := fn.Params[0]
-	d := NewDeriv(w, fn)
-	// comparisons that relate two pointers other than by PathIndex values
-	type rel struct {
-		pass Edge
+	top := w.Func(pkg, "setPatchDiffElementContext")
+	// scope: the context reader and the functions of the package it hands its
+	// op list to (the detection may live in a helper that returns the rest)
+	type unit struct {
+		fn    *ssa.Function
+		patch *ssa.Parameter
 	}
-	var rels []rel
-	fromPointerOf := func(v ssa.Value) bool {
-		// derived from a .Path field of an element of patch, and not an index value
-		if typeName(v.Type()) == "PathIndex" {
+	units := []unit{{top, top.Params[0]}}
+	seenU := map[*ssa.Function]bool{top: true}
+	for i := 0; i < len(units); i++ {
+		u := units[i]
+		allInstrs(u.fn, func(in ssa.Instruction) {
+			c, ok := in.(*ssa.Call)
+			if !ok {
+				return
+			}
+			sf := staticCallee(c)
+			if sf == nil || sf.Blocks == nil || fnPkg(sf) != pkg.Pkg || seenU[sf] || len(c.Call.Args) != len(sf.Params) {
+				return
+			}
+			for j, a := range c.Call.Args {
+				if strip(a) == ssa.Value(u.patch) {
+					seenU[sf] = true
+					units = append(units, unit{sf, sf.Params[j]})
+				}
+			}
+		})
+	}
+	n := 0
+	for _, u := range units {
+		fn, patch := u.fn, u.patch
+		r.Fn(fnName(fn))
+		d := NewDeriv(w, fn)
+		// comparisons that relate two pointers other than by PathIndex values
+		var rels []Edge
+		fromPointerOf := func(v ssa.Value) bool {
+			// derived from a .Path field of an element of patch, and not an index value
+			if typeName(v.Type()) == "PathIndex" {
+				return false
+			}
+			vis := d.Visited(v)
+			for x := range vis {
+				if _, sel := accessPath(x); strings.HasSuffix(selString(sel), "[].Path") {
+					if root, _ := accessPath(x); root == ssa.Value(patch) {
+						return true
+					}
+				}
+			}
 			return false
 		}
-		vis := d.Visited(v)
-		for x := range vis {
-			if _, sel := accessPath(x); strings.HasSuffix(selString(sel), "[].Path") {
-				if root, _ := accessPath(x); root == ssa.Value(patch) {
-					return true
+		for _, b := range fn.Blocks {
+			cond, tE, fE, ok := branchEdges(b)
+			if !ok {
+				continue
+			}
+			bo, ok := cond.(*ssa.BinOp)
+			if !ok || (bo.Op != token.EQL && bo.Op != token.NEQ) {
+				continue
+			}
+			if _, isK := bo.Y.(*ssa.Const); isK {
+				continue
+			}
+			if fromPointerOf(bo.X) && fromPointerOf(bo.Y) {
+				if bo.Op == token.EQL {
+					rels = append(rels, tE)
+				} else {
+					rels = append(rels, fE)
 				}
 			}
 		}
-		return false
-	}
-	for _, b := range fn.Blocks {
-		cond, tE, fE, ok := branchEdges(b)
-		if !ok {
-			continue
-		}
-		bo, ok := cond.(*ssa.BinOp)
-		if !ok || (bo.Op != token.EQL && bo.Op != token.NEQ) {
-			continue
-		}
-		if _, isK := bo.Y.(*ssa.Const); isK {
-			continue
-		}
-		if fromPointerOf(bo.X) && fromPointerOf(bo.Y) {
-			if bo.Op == token.EQL {
-				rels = append(rels, rel{tE})
-			} else {
-				rels = append(rels, rel{fE})
+		k := 0
+		for _, ret := range returnsOf(fn) {
+			if !isNilErrReturn(ret) {
+				continue
 			}
-		}
-	}
-	n := 0
-	for _, ret := range returnsOf(fn) {
-		if !isNilErrReturn(ret) {
-			continue
-		}
-		sl, ok := ret.Results[0].(*ssa.Slice)
-		if !ok || sl.Low == nil || strip(sl.X) != ssa.Value(patch) {
-			continue
-		}
-		k, _ := constInt(sl.Low)
-		if k < 1 {
-			continue
-		}
-		n++
-		key := fmt.Sprintf("%s:consume#%d", fnName(fn), n)
-		okRel := false
-		for _, rl := range rels {
-			if edgeDominatesOrSame(rl.pass, ret.Block()) {
-				okRel = true
+			// a result that is the op list with its head cut off
+			consumes := false
+			for _, rv := range ret.Results {
+				sl, ok := strip(rv).(*ssa.Slice)
+				if !ok || sl.Low == nil || strip(sl.X) != ssa.Value(patch) {
+					continue
+				}
+				if lo, _ := constInt(sl.Low); lo >= 1 {
+					consumes = true
+				}
 			}
+			if !consumes {
+				continue
+			}
+			n++
+			k++
+			key := fmt.Sprintf("%s:consume#%d", fnName(fn), k)
+			okRel := false
+			for _, e := range rels {
+				if edgeDominatesOrSame(e, ret.Block()) {
+					okRel = true
+				}
+			}
+			r.Check(okRel, rule, key, w.Pos(ret.Pos()), "a test op is consumed as context only after its pointer was related to the edit's pointer beyond the last index (same array)",
+				"a test op is consumed as list context although only the last index of its pointer was compared with the edit's: a test on another array is swallowed, and jd applies a patch RFC 6902 rejects")
 		}
-		r.Check(okRel, rule, key, w.Pos(ret.Pos()), "a test op is consumed as context only after its pointer was related to the edit's pointer beyond the last index (same array)",
-			"a test op is consumed as list context although only the last index of its pointer was compared with the edit's: a test on another array is swallowed, and jd applies a patch RFC 6902 rejects")
 	}
 	if n < 4 {
-		r.Bad(rule, fnName(fn)+":instance-floor", w.Pos(fn.Pos()), fmt.Sprintf("only %d context-consuming returns found", n))
+		r.Bad(rule, fnName(top)+":instance-floor", w.Pos(top.Pos()), fmt.Sprintf("only %d context-consuming returns found", n))
 	}
 }
 
